@@ -406,11 +406,11 @@ PROPS = {
         'assumptions': ['saturation as a property of the action list (pollEmpty / pollClosed never occur)'],
     },
     'C06': {
-        'lean_targets': ['Cqos.Props.C06', 'Cqos.Props.C16', 'Cqos.Facts.GluePrioV2'],
+        'lean_targets': ['Cqos.Props.C06', 'Cqos.Props.C16', 'Cqos.Facts.GluePrioV2', 'Cqos.Props.C06d'],
         'facts': True,
         'theorems': ['Cqos.C06.c06_calc_idle', 'Cqos.C06.calc_wait_busy', 'Cqos.C06.w_step', 'Cqos.C06.c06_never_waits_idle',
                      'Cqos.C06.c06_head_served', 'Cqos.C06.c06_recalc_alone', 'Cqos.C06.c06_v1_zero_share_starves',
-                     'Cqos.C15.c15_drain_progress', 'Cqos.C16.c16_exit_bound', 'Cqos.Facts.gluePrioV2'],
+                     'Cqos.C15.c15_drain_progress', 'Cqos.C16.c16_exit_bound', 'Cqos.Facts.gluePrioV2', 'Cqos.C06.poll_enabled', 'Cqos.C06.c06_no_deadlock'],
         'runs': [{'cmd': 'stepper', 'args': ['-family', 'single']}, {'cmd': 'stepper', 'args': ['-family', 'mixed']},
                  {'cmd': 'stepper', 'args': ['-family', 'terminate']},
                  {'cmd': 'blackbox', 'args': ['-scenario', 'alone']}],
@@ -419,7 +419,9 @@ PROPS = {
         'level_text': ('Lean theorems (safety-shaped progress facts, every action list): a v2 discipline never waits for a release while '
                        'nothing is in flight; with nothing in flight calcTactic proceeds and allots every priority its full share; when the '
                        'turn of a priority with data and a positive allotment comes, delivering its oldest item is enabled while skipping / '
-                       'giving up is not; a priority alone in having data receives the whole unused remainder in the second phase. The '
+                       'giving up is not; a priority alone in having data receives the whole unused remainder in the second phase; '
+                       'deadlock freedom: in every reachable non-terminated state either one of the discipline\'s own actions is '
+                       'enabled or it waits for a release while a handler still holds an item (c06_no_deadlock). The '
                        'stepper reports blocked-with-nothing-in-flight and single-active-priority under-occupation exactly (no timing)'),
         'level_note': ('partial: the eventuality (every item is eventually delivered) additionally needs fairness of the Go scheduler and of '
                        'the handlers, which is not modelled; v1 accepts zero-share configurations and starves them - known finding F1'),
